@@ -143,6 +143,10 @@ def gen_state_plan(rng, sc):
                 acts.append((o, Op('PUSH_STATE', a=rng.randint(0, 7))))
     it.acts = acts
     it.top = [op for op in it.top if op.name not in ('LEX', 'DESTROY')]
+    # the condition can be queried and changed before the first yylex call, too
+    for _ in range(rng.choice([0, 0, 1, 2, 4])):
+        k = rng.choice(['GET_STATE', 'PUSH_STATE', 'TOP_STATE', 'PUSH_STATE', 'POP_STATE', 'BEGIN'])
+        it.top.append(Op(k, a=rng.randint(0, 7)) if k in ('PUSH_STATE', 'BEGIN') else Op(k))
     top_mix(rng, sc, it, kinds=['BEGIN', 'PUSH_STATE', 'POP_STATE', 'TOP_STATE', 'GET_STATE', 'RESTART', 'SWITCHNEW', 'FLUSH'])
     if rng.random() < 0.5:
         it.top.append(Op('SET_YYIN'))
